@@ -49,7 +49,14 @@ bool simpleSymbol(std::string const & s) {
     }
     return true;
 }
-std::string quoteSym(std::string const & s) {
+// Symbols starting with '.' or '@' are reserved in SMT-LIB (cvc5 refuses to declare them): auxiliary symbols of the
+// solver (.ite*, .frame*, .purify_*, .mod_*, ...) are shown to the references under an "aux" prefix.
+std::string publicName(std::string const & s) {
+    if (!s.empty() && (s[0] == '.' || s[0] == '@')) return "aux" + s;
+    return s;
+}
+std::string quoteSym(std::string const & s0) {
+    std::string s = publicName(s0);
     if (simpleSymbol(s)) return s;
     if (s.size() >= 2 && s.front() == '|' && s.back() == '|') return s;
     return "|" + s + "|";
@@ -87,7 +94,7 @@ struct Printer {
         auto & seen = g_declared[ctx];
         if (!seen.insert(sr.x).second) return;
         Symbol const & sym = logic.getSym(sr);
-        std::string rec = "{\"ev\":\"decl\",\"ctx\":" + std::to_string(ctx) + ",\"name\":" + jsonEscape(logic.getSymName(sr)) + ",\"args\":[";
+        std::string rec = "{\"ev\":\"decl\",\"ctx\":" + std::to_string(ctx) + ",\"name\":" + jsonEscape(publicName(logic.getSymName(sr))) + ",\"args\":[";
         for (unsigned i = 0; i < sym.nargs(); ++i) {
             if (i) rec += ",";
             rec += jsonEscape(logic.sortToString(sym[i]));
